@@ -128,16 +128,59 @@ Proof.
   - intros s Hs. unfold pad at 1. destruct ((0 <=? s) && (s <? n)) eqn:A; [lia|ring].
 Qed.
 
-(* smooth1 in terms of the direct convolution *)
+(* ---------------- _kcenter = argmax of the cropped kernel ---------------- *)
+Lemma argmax_upto_spec f : forall m,
+  0 <= argmax_upto f m <= Z.of_nat m /\
+  forall j, 0 <= j <= Z.of_nat m -> (f j <= f (argmax_upto f m))%Q.
+Proof.
+  induction m as [|m [IH1 IH2]].
+  - cbn [argmax_upto]. split; [lia|]. intros j Hj. assert (j = 0) by lia. subst j. apply Qle_refl.
+  - cbn [argmax_upto]. set (a := argmax_upto f m) in *.
+    destruct (Qle_bool (f (Z.of_nat (S m))) (f a)) eqn:B.
+    + apply Qle_bool_iff in B. split; [lia|]. intros j Hj.
+      destruct (Z.eq_dec j (Z.of_nat (S m))) as [->|NE]; [exact B|apply IH2; lia].
+    + assert (L : (f a < f (Z.of_nat (S m)))%Q).
+      { apply Qnot_le_lt. intros C. apply Qle_bool_iff in C. congruence. }
+      split; [lia|]. intros j Hj.
+      destruct (Z.eq_dec j (Z.of_nat (S m))) as [->|NE]; [apply Qle_refl|].
+      apply Qle_trans with (f a); [apply IH2; lia|apply Qlt_le_weak; exact L].
+Qed.
+
+Lemma kcenter_range k kap : 1 <= k -> 0 <= kcenter k kap < k.
+Proof.
+  intros Hk. unfold kcenter. pose proof (proj1 (argmax_upto_spec kap (Z.to_nat (k - 1)))). lia.
+Qed.
+
+Lemma kcenter_max k kap j : 1 <= k -> 0 <= j < k -> (kap j <= kap (kcenter k kap))%Q.
+Proof.
+  intros Hk Hj. unfold kcenter. apply (proj2 (argmax_upto_spec kap (Z.to_nat (k - 1)))). lia.
+Qed.
+
+(* a kernel with a strict maximum at index c has _kcenter = c *)
+Lemma kcenter_unique k kap c :
+  0 <= c < k -> (forall j, 0 <= j < k -> j <> c -> (kap j < kap c)%Q) -> kcenter k kap = c.
+Proof.
+  intros Hc Hmax. destruct (Z.eq_dec (kcenter k kap) c) as [E|NE]; [exact E|exfalso].
+  pose proof (kcenter_range k kap ltac:(lia)) as R.
+  pose proof (kcenter_max k kap c ltac:(lia) Hc) as M.
+  pose proof (Hmax (kcenter k kap) R NE). lra.
+Qed.
+
+(* ---------------- smooth in terms of the direct convolution ---------------- *)
+Lemma smooth1_w_direct n k w x kap scale loc p :
+  1 <= n -> 0 <= w < k -> 0 <= p < n ->
+  (smooth1_w n k w x kap scale loc p == scale * (lin n k x kap (p + w) / l1sum k kap) + loc)%Q.
+Proof.
+  intros Hn Hw Hp. unfold smooth1_w, win_start.
+  rewrite (circ_eq_lin n k (buflen n k) x kap (p + w) Hn ltac:(lia) (buflen_nowrap n k)).
+  - reflexivity.
+  - pose proof (window_in_buffer n k w p Hn Hw Hp) as W. unfold win_start in W. lia.
+Qed.
+
 Lemma smooth1_direct n k x kap scale loc p :
   1 <= n -> 1 <= k -> 0 <= p < n ->
-  (smooth1 n k x kap scale loc p == scale * (lin n k x kap (p + k / 2) / l1sum k kap) + loc)%Q.
-Proof.
-  intros Hn Hk Hp. unfold smooth1, win_start.
-  rewrite (circ_eq_lin n k (buflen n k) x kap (p + k / 2) Hn Hk (buflen_nowrap n k)).
-  - reflexivity.
-  - pose proof (window_in_buffer n k p Hn Hk Hp) as W. unfold win_start in W. lia.
-Qed.
+  (smooth1 n k x kap scale loc p == scale * (lin n k x kap (p + kcenter k kap) / l1sum k kap) + loc)%Q.
+Proof. intros Hn Hk Hp. unfold smooth1. apply smooth1_w_direct; try assumption. apply kcenter_range; exact Hk. Qed.
 
 (* ---------------- linearity, scale/location ---------------- *)
 Lemma lin_linear n k x y kap a b t :
@@ -157,7 +200,7 @@ Qed.
 
 Lemma smooth1_scale_loc n k x kap scale loc p :
   (smooth1 n k x kap scale loc p == scale * smooth1 n k x kap 1 0 p + loc)%Q.
-Proof. unfold smooth1. ring. Qed.
+Proof. unfold smooth1, smooth1_w. ring. Qed.
 
 (* ---------------- impulse response ---------------- *)
 Lemma lin_delta n k kap p0 t :
@@ -166,12 +209,17 @@ Proof.
   intros Hp. unfold lin. rewrite (zsum_delta (fun s => pad k kap (t - s))) by lia. reflexivity.
 Qed.
 
-Lemma impulse_response n k kap p0 p :
-  1 <= n -> 1 <= k -> 0 <= p0 < n -> 0 <= p < n ->
-  (smooth1 n k (delta p0) kap 1 0 p == pad k kap (p + k / 2 - p0) / l1sum k kap)%Q.
+Lemma impulse_response_w n k w kap p0 p :
+  1 <= n -> 0 <= w < k -> 0 <= p0 < n -> 0 <= p < n ->
+  (smooth1_w n k w (delta p0) kap 1 0 p == pad k kap (p + w - p0) / l1sum k kap)%Q.
 Proof.
-  intros Hn Hk Hp0 Hp. rewrite smooth1_direct by assumption. rewrite lin_delta by assumption.
+  intros Hn Hw Hp0 Hp. rewrite smooth1_w_direct by assumption. rewrite lin_delta by assumption.
   unfold Qdiv. ring.
+Qed.
+
+Lemma div_lt_pos a b s : (0 < s)%Q -> (a < b)%Q -> (a / s < b / s)%Q.
+Proof.
+  intros Hs Hab. unfold Qdiv. apply Qmult_lt_compat_r; [|exact Hab]. apply Qinv_lt_0_compat. exact Hs.
 Qed.
 
 Section Profile.
@@ -179,7 +227,7 @@ Section Profile.
      offset from the centre voxel *)
   Variable g : Z -> Q.
   Hypothesis g_nonneg : forall d, (0 <= g d)%Q.
-  Hypothesis g_peak : forall d, d <> 0 -> (g d < g 0)%Q.
+  Hypothesis g_peak : forall d, d <> 0 -> (g d < g 0%Z)%Q.
 
   Lemma l1sum_pos k ck : 0 <= ck < k -> (0 < l1sum k (kern_of g ck))%Q.
   Proof.
@@ -189,40 +237,65 @@ Section Profile.
     - unfold kern_of. rewrite Z.sub_diag. pose proof (g_peak 1 ltac:(lia)). pose proof (g_nonneg 1). lra.
   Qed.
 
-  Lemma div_lt_pos a b s : (0 < s)%Q -> (a < b)%Q -> (a / s < b / s)%Q.
+  (* _kcenter of such a kernel is the centre index *)
+  Lemma kcenter_kern_of k ck : 0 <= ck < k -> kcenter k (kern_of g ck) = ck.
   Proof.
-    intros Hs Hab. unfold Qdiv. apply Qmult_lt_compat_r; [|exact Hab]. apply Qinv_lt_0_compat. exact Hs.
+    intros Hck. apply kcenter_unique; [exact Hck|]. intros j Hj Hne. unfold kern_of.
+    rewrite Z.sub_diag. apply g_peak. lia.
   Qed.
 
-  (* the response to a unit impulse at p0 has its strict maximum at p0 + (c_k - k//2) *)
-  Lemma impulse_peak n k ck p0 p :
-    1 <= n -> 0 <= ck < k -> 0 <= p0 < n -> 0 <= p < n ->
-    0 <= p0 + (ck - k / 2) < n -> p <> p0 + (ck - k / 2) ->
-    (smooth1 n k (delta p0) (kern_of g ck) 1 0 p < smooth1 n k (delta p0) (kern_of g ck) 1 0 (p0 + (ck - k / 2)))%Q.
+  (* any window start w inside the kernel: the response to a unit impulse at p0 has its
+     strict maximum at p0 + (c_k - w) *)
+  Lemma impulse_peak_w n k w ck p0 p :
+    1 <= n -> 0 <= w < k -> 0 <= ck < k -> 0 <= p0 < n -> 0 <= p < n ->
+    0 <= p0 + (ck - w) < n -> p <> p0 + (ck - w) ->
+    (smooth1_w n k w (delta p0) (kern_of g ck) 1 0 p < smooth1_w n k w (delta p0) (kern_of g ck) 1 0 (p0 + (ck - w)))%Q.
   Proof.
-    intros Hn Hck Hp0 Hp Hq Hne.
-    rewrite !impulse_response by (try assumption; lia).
+    intros Hn Hw Hck Hp0 Hp Hq Hne.
+    rewrite !impulse_response_w by (try assumption; lia).
     apply div_lt_pos; [apply l1sum_pos; exact Hck|].
-    replace (p0 + (ck - k / 2) + k / 2 - p0) with ck by lia.
+    replace (p0 + (ck - w) + w - p0) with ck by lia.
     unfold pad at 2. destruct ((0 <=? ck) && (ck <? k)) eqn:A; [|lia].
     unfold kern_of at 2. rewrite Z.sub_diag.
-    unfold pad. destruct ((0 <=? p + k / 2 - p0) && (p + k / 2 - p0 <? k)) eqn:B.
+    unfold pad. destruct ((0 <=? p + w - p0) && (p + w - p0 <? k)) eqn:B.
     - unfold kern_of. apply g_peak. lia.
     - pose proof (g_peak 1 ltac:(lia)). pose proof (g_nonneg 1). lra.
   Qed.
 
-End Profile.
-
-  (* value of the response: the profile translated by p0 + offset *)
-Lemma impulse_value (g : Z -> Q) n k ck p0 p :
-    1 <= n -> 0 <= ck < k -> 0 <= p0 < n -> 0 <= p < n ->
-    0 <= p + k / 2 - p0 < k ->
-    (smooth1 n k (delta p0) (kern_of g ck) 1 0 p == g (p - (p0 + (ck - k / 2)))%Z / l1sum k (kern_of g ck))%Q.
+  (* the code: w = _kcenter = c_k, the maximum is AT the impulse *)
+  Lemma impulse_centred n k ck p0 p :
+    1 <= n -> 0 <= ck < k -> 0 <= p0 < n -> 0 <= p < n -> p <> p0 ->
+    (smooth1 n k (delta p0) (kern_of g ck) 1 0 p < smooth1 n k (delta p0) (kern_of g ck) 1 0 p0)%Q.
   Proof.
-    intros Hn Hck Hp0 Hp Hin. rewrite impulse_response by (try assumption; lia).
-    unfold pad. destruct ((0 <=? p + k / 2 - p0) && (p + k / 2 - p0 <? k)) eqn:B; [|lia].
-    unfold kern_of. replace (p + k / 2 - p0 - ck) with (p - (p0 + (ck - k / 2))) by lia. reflexivity.
+    intros Hn Hck Hp0 Hp Hne. unfold smooth1. rewrite (kcenter_kern_of k ck Hck).
+    pose proof (impulse_peak_w n k ck ck p0 p Hn Hck Hck Hp0 Hp) as P.
+    replace (p0 + (ck - ck)) with p0 in P by lia. apply P; [lia|exact Hne].
   Qed.
+
+  (* ... and the response is the profile centred on the impulse, wherever the kernel reaches *)
+  Lemma impulse_value n k ck p0 p :
+    1 <= n -> 0 <= ck < k -> 0 <= p0 < n -> 0 <= p < n ->
+    0 <= p + ck - p0 < k ->
+    (smooth1 n k (delta p0) (kern_of g ck) 1 0 p == g (p - p0)%Z / l1sum k (kern_of g ck))%Q.
+  Proof.
+    intros Hn Hck Hp0 Hp Hin. unfold smooth1. rewrite (kcenter_kern_of k ck Hck).
+    rewrite impulse_response_w by (try assumption; lia).
+    unfold pad. destruct ((0 <=? p + ck - p0) && (p + ck - p0 <? k)) eqn:B; [|lia].
+    unfold kern_of. replace (p + ck - p0 - ck) with (p - p0) by lia. reflexivity.
+  Qed.
+
+  (* outside the kernel's reach the response is zero *)
+  Lemma impulse_zero n k ck p0 p :
+    1 <= n -> 0 <= ck < k -> 0 <= p0 < n -> 0 <= p < n ->
+    ~ (0 <= p + ck - p0 < k) ->
+    (smooth1 n k (delta p0) (kern_of g ck) 1 0 p == 0)%Q.
+  Proof.
+    intros Hn Hck Hp0 Hp Hout. unfold smooth1. rewrite (kcenter_kern_of k ck Hck).
+    rewrite impulse_response_w by (try assumption; lia).
+    unfold pad. destruct ((0 <=? p + ck - p0) && (p + ck - p0 <? k)) eqn:B; [lia|].
+    unfold Qdiv. ring.
+  Qed.
+End Profile.
 
 (* ---------------- constants and mass ---------------- *)
 Lemma window_sum_desc n k kap t :
@@ -247,32 +320,97 @@ Proof.
   - intros j s Hj Hs. lia.
 Qed.
 
-(* a constant image stays constant wherever the whole kernel fits in the grid *)
+(* a constant image stays constant wherever the whole kernel fits in the grid (w = _kcenter) *)
 Lemma constant_preserved n k kap a p :
   1 <= n -> 1 <= k -> 0 <= p < n -> ~ (l1sum k kap == 0)%Q ->
-  k - 1 - k / 2 <= p -> p + k / 2 <= n - 1 ->
+  k - 1 - kcenter k kap <= p -> p + kcenter k kap <= n - 1 ->
   (smooth1 n k (fun _ => a) kap 1 0 p == a)%Q.
 Proof.
   intros Hn Hk Hp HS Hlo Hhi. rewrite smooth1_direct by assumption. unfold lin.
-  rewrite zsum_scale. rewrite (window_sum_desc n k kap (p + k / 2)) by lia.
+  rewrite zsum_scale. rewrite (window_sum_desc n k kap (p + kcenter k kap)) by lia.
   field. exact HS.
 Qed.
 
 (* total intensity is preserved for data supported where the whole kernel fits *)
 Lemma mass_preserved n k kap x :
   1 <= n -> 1 <= k -> ~ (l1sum k kap == 0)%Q ->
-  (forall s, 0 <= s < n -> ~ (k / 2 <= s /\ s - k / 2 + k <= n) -> (x s == 0)%Q) ->
+  (forall s, 0 <= s < n -> ~ (kcenter k kap <= s /\ s - kcenter k kap + k <= n) -> (x s == 0)%Q) ->
   (zsum (fun p => smooth1 n k x kap 1 0 p) (Z.to_nat n) == zsum x (Z.to_nat n))%Q.
 Proof.
-  intros Hn Hk HS Hx.
-  rewrite (zsum_ext _ (fun p => zsum (fun s => x s * pad k kap (p + k / 2 - s) * / l1sum k kap) (Z.to_nat n))%Q).
-  2:{ intros p Hp. rewrite smooth1_direct by lia. unfold lin. rewrite zsum_scale_r. unfold Qdiv. ring. }
+  intros Hn Hk HS Hx. set (w := kcenter k kap) in *.
+  rewrite (zsum_ext _ (fun p => zsum (fun s => x s * pad k kap (p + w - s) * / l1sum k kap) (Z.to_nat n))%Q).
+  2:{ intros p Hp. rewrite smooth1_direct by lia. fold w. unfold lin. rewrite zsum_scale_r. unfold Qdiv. ring. }
   rewrite zsum_swap. apply zsum_ext. intros s Hs.
-  rewrite (zsum_ext _ (fun p => (x s * / l1sum k kap) * pad k kap (p - (s - k / 2)))%Q).
-  2:{ intros p Hp. replace (p + k / 2 - s) with (p - (s - k / 2)) by lia. ring. }
+  rewrite (zsum_ext _ (fun p => (x s * / l1sum k kap) * pad k kap (p - (s - w)))%Q).
+  2:{ intros p Hp. replace (p + w - s) with (p - (s - w)) by lia. ring. }
   rewrite zsum_scale.
-  destruct (Z_le_gt_dec (k / 2) s) as [A|A]; [destruct (Z_le_gt_dec (s - k / 2 + k) n) as [B|B]|].
-  - rewrite (window_sum_asc n k kap (s - k / 2)) by lia. field. exact HS.
+  destruct (Z_le_gt_dec w s) as [A|A]; [destruct (Z_le_gt_dec (s - w + k) n) as [B|B]|].
+  - rewrite (window_sum_asc n k kap (s - w)) by lia. field. exact HS.
   - rewrite (Hx s) by lia. ring.
   - rewrite (Hx s) by lia. ring.
+Qed.
+
+(* ---------------- shift equivariance ---------------- *)
+Lemma zsum_shift1 (h : Z -> Q) (n : nat) :
+  (zsum (fun s => h (s - 1)%Z) n + h (Z.of_nat n - 1)%Z == h (-1)%Z + zsum h n)%Q.
+Proof.
+  induction n as [|n IH].
+  - cbn [zsum]. replace (Z.of_nat 0 - 1) with (-1)%Z by lia. ring.
+  - cbn [zsum].
+    replace (Z.of_nat (S n) - 1) with (Z.of_nat n) by lia.
+    assert (E : (zsum (fun s => h (s - 1)%Z) n == h (-1)%Z + zsum h n - h (Z.of_nat n - 1)%Z)%Q) by (rewrite <- IH; ring).
+    rewrite E. ring.
+Qed.
+
+Lemma zsum_shift (h : Z -> Q) (n : nat) : forall d : nat,
+  (forall u, - Z.of_nat d <= u < 0 -> (h u == 0)%Q) ->
+  (forall u, Z.of_nat n - Z.of_nat d <= u < Z.of_nat n -> (h u == 0)%Q) ->
+  (zsum (fun s => h (s - Z.of_nat d)%Z) n == zsum h n)%Q.
+Proof.
+  induction d as [|d IH]; intros Hlo Hhi.
+  - apply zsum_ext. intros i Hi. replace (i - Z.of_nat 0) with i by lia. reflexivity.
+  - set (h' := fun u : Z => h (u - Z.of_nat d)%Z).
+    rewrite (zsum_ext _ (fun s => h' (s - 1)%Z)).
+    2:{ intros i Hi. unfold h'. replace (i - 1 - Z.of_nat d) with (i - Z.of_nat (S d)) by lia. reflexivity. }
+    assert (E : (zsum (fun s => h' (s - 1)%Z) n == h' (-1)%Z + zsum h' n - h' (Z.of_nat n - 1)%Z)%Q)
+      by (rewrite <- (zsum_shift1 h' n); ring).
+    rewrite E. unfold h' at 1 3.
+    rewrite (Hlo (-1 - Z.of_nat d)) by lia. rewrite (Hhi (Z.of_nat n - 1 - Z.of_nat d)) by lia.
+    unfold h'. rewrite IH.
+    + ring.
+    + intros u Hu. apply Hlo. lia.
+    + intros u Hu. apply Hhi. lia.
+Qed.
+
+(* y is x moved by d >= 0 voxels and both lie inside the grid: the smoothed y is the
+   smoothed x moved by d (read backwards: moved by -d) *)
+Lemma lin_shift n k kap x y d t :
+  0 <= d -> 0 <= n ->
+  (forall s, ~ (0 <= s < n) -> (x s == 0)%Q) ->
+  (forall s, ~ (0 <= s < n) -> (y s == 0)%Q) ->
+  (forall s, (y s == x (s - d)%Z)%Q) ->
+  (lin n k y kap (t + d) == lin n k x kap t)%Q.
+Proof.
+  intros Hd Hn Hx Hy Hxy. unfold lin.
+  set (h := fun u : Z => (x u * pad k kap (t - u))%Q).
+  rewrite (zsum_ext _ (fun s => h (s - Z.of_nat (Z.to_nat d))%Z)).
+  2:{ intros s Hs. unfold h. rewrite Z2Nat.id by lia. rewrite Hxy.
+      replace (t + d - s) with (t - (s - d)) by lia. reflexivity. }
+  apply zsum_shift.
+  - intros u Hu. unfold h. rewrite (Hx u) by lia. ring.
+  - intros u Hu. unfold h. rewrite Z2Nat.id in Hu by lia.
+    assert (E : (x u == y (u + d)%Z)%Q) by (rewrite Hxy; replace (u + d - d) with u by lia; reflexivity).
+    rewrite E. rewrite (Hy (u + d)) by lia. ring.
+Qed.
+
+Lemma smooth1_shift n k kap x y d p scale loc :
+  1 <= n -> 1 <= k -> 0 <= d -> 0 <= p -> p + d < n ->
+  (forall s, ~ (0 <= s < n) -> (x s == 0)%Q) ->
+  (forall s, ~ (0 <= s < n) -> (y s == 0)%Q) ->
+  (forall s, (y s == x (s - d)%Z)%Q) ->
+  (smooth1 n k y kap scale loc (p + d) == smooth1 n k x kap scale loc p)%Q.
+Proof.
+  intros Hn Hk Hd Hp Hpd Hx Hy Hxy. rewrite !smooth1_direct by lia.
+  replace (p + d + kcenter k kap) with (p + kcenter k kap + d) by lia.
+  rewrite (lin_shift n k kap x y d (p + kcenter k kap)) by (try assumption; lia). reflexivity.
 Qed.
